@@ -55,10 +55,10 @@ def run(pid, tier, seed, plan, oracle_names, categories, rule, assumptions, **kw
     results = harness.pmap(work, [tasks[i] for i in order], chunksize=4)
     agg = harness.Agg()
     viol = []
-    for res in results:
+    for res in sorted(results, key=lambda r: len(r['desc'])):
         agg.add(res, program=res['desc'])
         for v in res['violations']:
-            if v['category'] not in categories:
+            if v['category'] not in categories and v['category'] != 'crash':
                 continue
             sig = '%s:%s:%s' % (pid, v['category'], norm(v['detail']))
             msg = '%s %s in %s after %s op %s: %s' % (pid, v['category'], res['desc'], v['hist'],
